@@ -157,9 +157,13 @@ def replace_harness(e):
     node = build(recipe)
     if twins and not twin_first:
         keep = [build(recipe)]
-    state = e.pick(["registered", "detached"], "original_state")
-    if state == "detached":
+    state = e.pick(["registered", "detached", "detached-then-twin-built"], "original_state")
+    if state != "registered":
         node.detach_self()
+    if state == "detached-then-twin-built":
+        # the twin takes over the id the original gave up
+        keep.append(build(recipe))
+    keep_registered = [(t, t.id) for t in keep if ASTNode.get_any(t.id) is t]
     changes = _changes(node)
     label, kw, comparable = changes[e.choice(len(changes), "change")]
     if "origin" in kw:
@@ -206,6 +210,12 @@ def replace_harness(e):
             e.fail("dataclasses.replace-unregistered-the-original", scenario=scenario)
         if was_registered and new.id == old_id:
             e.fail("dataclasses.replace-reused-the-registered-original-id", scenario=scenario)
+    for t, tid in keep_registered:
+        if ASTNode.get_any(tid) is not t or t.id != tid:
+            scenario.update(twin_id=tid)
+            e.fail("replace-unregistered-or-renamed-another-node", scenario=scenario)
+    if state == "detached-then-twin-built" and op == "ASTNode.replace":
+        pass
     del keep
     e.distinct((bno, twins, twin_first, state, label, op))
     return scenario
